@@ -9,14 +9,14 @@ RULE = (
     "two families of cases, both executed on the real PathsManager in a clean sandbox and compared with models/refstore.Paths: "
     "(roundtrip) every ordered list of 1..3 distinct csvpath texts from a 14-text alphabet (no comment, id, name, identities that start with or contain digits, id+name "
     "precedence, comment after the csvpath, inner comments, newlines/indentation, multi-line outer comment, quoted header) -> "
-    "add, get, every name#id and $name.csvpaths.id, every :from/:to; (history) every sequence of <=3 (thorough <=4) operations over "
+    "add, get, every name#id and $name.csvpaths.id, every :from/:to; (history) every sequence of <=3 (thorough <=5) operations over "
     "{add(name in 2, list in 5), remove(name in 2), new instance}, with get/#id/:from/:to for every group and manifest length + "
     "last fingerprint == sha256(group file) checked after EVERY operation; non-trivial = some group was replaced or re-added; "
     "state = model store after each operation"
 )
 BOUNDS = {
     "quick": "2,380 round-trip lists (1..3 of 14 texts) + all 2,379 histories of length<=3 over 13 operations",
-    "thorough": "10,300 round-trip lists (1..3 of 14 texts, 4 of the first 11) + all 30,940 histories of length<=4",
+    "thorough": "10,300 round-trip lists (1..3 of 14 texts, 4 of the first 11) + all 402,233 histories of length<=5 (the length the quantifier names)",
 }
 CHUNK = 60
 BUDGET = {"quick": 500, "thorough": 3500}
@@ -61,7 +61,7 @@ def cases(tier, seed):
     for k in range(1, maxlist + 1):
         for lst in itertools.permutations(range(len(T) if k <= 3 else 11), k):
             yield {"kind": "roundtrip", "list": list(lst)}
-    maxh = 3 if tier == "quick" else 4
+    maxh = 3 if tier == "quick" else 5
     ops = _ops()
     for k in range(1, maxh + 1):
         for h in itertools.product(ops, repeat=k):
